@@ -4,7 +4,7 @@ import os
 import random
 import struct
 
-from . import core, tlc, glue, randgen, dbcread
+from . import pycodec, core, tlc, glue, randgen, dbcread
 from .chk_wire import SchemaCache
 from .chk_layout import abs_for_text, abs_for_tlc
 
@@ -141,7 +141,7 @@ def schema_dev(sch):
 
 def rand_can_schema(rng):
     """random fixed-size CAN schema (<= 64 bits per message) with byte-aligned big-endian signals, mux, buses"""
-    enums = [randgen.rand_enum(rng, n) for n in randgen.NAMES_E[:2]]
+    enums = [randgen.rand_enum(rng, n) for n in rng.sample(["inverter", "Eb", "ustate", "fmode", "i", "Id8", "Ea"], 2)]
     structs, impls = [], []
     inner = None
     if rng.random() < 0.5:
@@ -276,9 +276,13 @@ def run_c05(tier, seed):
     if len(keys) > limit:
         rng.shuffle(keys)
         keys = keys[:limit]
-    for key in keys:
+    for ki, key in enumerate(keys):
         cases = by_schema[key]
         sch = abs_for_text(glue.strip_gen(cases[0]["schema"]))
+        if ki % 2 == 1:
+            # a name is not part of the description: the same schema with enum names that begin like builtin types
+            from .chk_c import rename_enums
+            sch = rename_enums(sch, {"Ea": "inverter", "Eb": "ustate", "Ec": "ignition", "Ed": "i", "Ee": "fmode", "Ef": "Id8", "Ez": "u"})
         text = glue.schema_text(sch)
         fcp = cache.get(sch)
         st, files = generate_dbc(fcp, out)
@@ -302,7 +306,17 @@ def run_c05(tier, seed):
     events, meta = [], {}
     for i in range(n):
         sch = rand_can_schema(rng)
-        fcp = cache.get(sch)
+        if i % 3 == 0:
+            # the same schema spread over several files (types / bindings in modules) and loaded with get_fcp: what is
+            # generated must not depend on how the declarations are spread
+            try:
+                fcp, _ = pycodec.parse_schema_split(sch, chk.workdir, (i // 3) % 3)
+            except RuntimeError as e:
+                chk.count(1)
+                chk.violation("dbc.generate:split-schema-rejected", {"mode": "T", "schema_text": glue.schema_text(sch), "error": str(e)[:1500]})
+                continue
+        else:
+            fcp = cache.get(sch)
         st, files = generate_dbc(fcp, out)
         values = []
         for im in sch["impls"]:
